@@ -19,6 +19,7 @@ package c13
 import (
 	"encoding/json"
 	"fmt"
+	"verif/sess"
 
 	"verif/core"
 	"verif/tape"
@@ -104,6 +105,8 @@ func (h *History) key() uint64 {
 }
 
 // Run executes one simulated run.
+var c13Runs int
+
 func (Prop) Run(tp *tape.Tape) (res core.Result) {
 	defer func() {
 		if p := recover(); p != nil {
@@ -111,6 +114,18 @@ func (Prop) Run(tp *tape.Tape) (res core.Result) {
 			res.Violation = &core.Violation{Clause: "harness-panic", Detail: fmt.Sprint(p)}
 		}
 	}()
+	// part C, every 4096th run of a worker: the real grammar (parser.go over the real TLexer and
+	// combinators) parses a fixed set of statements full of failing alternatives; the outcome must be
+	// what it was when the process started (a failed alternative must consume nothing, not even
+	// state outside the lexer)
+	c13Runs++
+	if c13Runs%4096 == 1 {
+		res.Inc("part.C_parse_canary", 1)
+		if same, detail := sess.ParseCanary(); !same {
+			res.Violation = &core.Violation{Clause: "C.parse-depends-on-history", Detail: detail}
+			return res
+		}
+	}
 	switch tp.Draw(3) {
 	case 0:
 		res.Inc("part.A", 1)
